@@ -13,17 +13,36 @@ func histPlan(tier string, rule string) Plan {
 	return Plan{Runs: n, Level: "exploration", Rule: rule}
 }
 
+// histPlanAudit: the explorer's runs followed by the full-list audits (audit.go)
+func histPlanAudit(tier string, rule string) Plan {
+	p := histPlan(tier, rule+auditRule)
+	p.Runs += auditRuns(tier)
+	return p
+}
+
+const auditRule = "; the last 8 (thorough: 48) runs are full-list audits: a 700..4500-entry (thorough: up to 17000) list is loaded (first load) and replaced (refresh) on each backend, and EVERY listed serial, every removed serial and the never-listed neighbour of every listed serial is probed"
+
+func histOrAudit(h *Harness, cfg histCfg, prefix string) {
+	base := histPlan(h.Tier, "").Runs
+	if h.Idx >= base {
+		ownPrefix = prefix
+		runFullAudit(h, h.Idx-base)
+		return
+	}
+	runCRLHistoryOwned(h, cfg, prefix)
+}
+
 const histRule = "one run = a tape-drawn history (6-20 events: handshake / tick / origin change / restart / advance) over 1-2 validators and 2-3 CRL locations (two issuers with overlapping serials; sources CDP, crl_urls, crl_files; DER/PEM; serial widths 1-20 bytes; chunked delivery) with configuration (backend, mode, signature mode, fetch mode, strictness) drawn per run; every handshake verdict is checked against the versions observed in force by pure probes before and after it; non-trivial = some handshake was denied or concerned a listed serial, or an origin misbehaved; distinct = distinct (scenario, schedule) fingerprints"
 
 func init() {
-	register(&PropDef{ID: "C01", Plan: func(t string) Plan { return histPlan(t, histRule) }, Run: func(h *Harness) {
-		runCRLHistoryOwned(h, histCfg{prop: "C01", strictBias: 30, withOCSP: true, faulty: true, histLen: 6}, "C01.")
+	register(&PropDef{ID: "C01", Plan: func(t string) Plan { return histPlanAudit(t, histRule) }, Run: func(h *Harness) {
+		histOrAudit(h, histCfg{prop: "C01", strictBias: 30, withOCSP: true, faulty: true, histLen: 6}, "C01.")
 	}})
 	register(&PropDef{ID: "C10", Plan: func(t string) Plan { return histPlan(t, histRule) }, Run: func(h *Harness) {
 		runCRLHistoryOwned(h, histCfg{prop: "C10", strictBias: 60, faulty: true, histLen: 6}, "C10.")
 	}})
-	register(&PropDef{ID: "C11", Plan: func(t string) Plan { return histPlan(t, histRule) }, Run: func(h *Harness) {
-		runCRLHistoryOwned(h, histCfg{prop: "C11", strictBias: 30, faulty: true, histLen: 7}, "C11.")
+	register(&PropDef{ID: "C11", Plan: func(t string) Plan { return histPlanAudit(t, histRule) }, Run: func(h *Harness) {
+		histOrAudit(h, histCfg{prop: "C11", strictBias: 30, faulty: true, histLen: 7}, "C11.")
 	}})
 }
 
